@@ -79,6 +79,9 @@ def free_layout(stmts, rng, user_names, p_break=0.35, p_comment=0.25, p_join=0.2
             if rng.random() < 0.3:
                 L.lines.append("")
                 feat("blank_" + kind)
+                if kind == "full":
+                    # a blank line outside a continuation is delivered as an empty comment
+                    L.comments.append((len(L.lines), "", "blank"))
             else:
                 ct = comment_text()
                 L.lines.append(" " * rng.choice([0, 2, 7]) + ct)
